@@ -372,7 +372,7 @@ def c15_r2_units(ctx, rule="C15.R2"):
               "a slice is returned only when the UTF-16 counter reached col + span (a line shorter than that yields None)", ctx.site(b, gb))
     rets = [sh for sh, _, _ in q.def_shapes(b, 0, roles) if sh != "Option::None{}" and not sh.startswith("FromResidual::from_residual")]
     ctx.check(len(rets) == 1 and rets[0].startswith("str::get("), rule, fn, "result:only-the-slice", "the only value ever returned is the slice cut by str::get (no shortcut answer, e.g. for an empty span)", detail=str(rets)[:200])
-    nones = option_blocks(b, "None")
+    nones = sorted(set(option_blocks(b, "None")) | set(site[0] for sh, site, _ in q.def_shapes(b, 0, roles) if sh == "Option::None{}"))
     ctx.check(bool(nones) and all(has_fact(b, nb, roles, ("Lt", "cast<u64>(U)", SUM), ("Lt", "U", "cast<usize>(%s)" % SUM)) for nb in nones), rule, fn, "none:only-when-short",
               "None is returned only when the line has fewer than col + span UTF-16 units (the test is in UTF-16 units, not bytes)")
     ctx.check(bool(want_col), rule, fn, "cmp:col", "the prefix walk stops when the UTF-16 counter reaches col", detail=str(sorted(cmps)))
